@@ -58,7 +58,7 @@ RootCase == LET r == IF withD THEN Root(lay, start)
             IN  [layout |-> lay, start |-> start, withd |-> withD, ok |-> r.ok, root |-> r.dir]
 
 ExportCase == Export =>
-    /\ (Mode = "args" /\ stage = Len(Pieces)) => PrintT(ToJson([arg |-> arg, ok |-> R.ok, file |-> R.file, id |-> R.id, k |-> R.k]))
+    /\ (Mode = "args" /\ stage = Len(Pieces)) => PrintT(ToJson([arg |-> arg, ok |-> R.ok, file |-> R.file, id |-> R.id, k |-> R.k, ftarget |-> FormatTarget(arg)]))
     /\ (Mode = "stdin" /\ stage = Len(Pieces)) => PrintT(ToJson([body |-> arg]))
     /\ Mode = "root" => PrintT(ToJson(RootCase))
 =============================================================================
